@@ -612,3 +612,37 @@ fn pad_pot(cap: usize) -> usize {
     // return the next POT
     n << 1
 }
+
+/// Raw-slot access for the out-of-tree verification harnesses (`verif-hooks` feature only).
+#[cfg(feature = "verif-hooks")]
+impl<T, A> HandleTable<T, A>
+where
+    A: Allocator,
+{
+    /// Writes `(handle, value)` into slot `i`, which must be empty, and counts it.
+    ///
+    /// # Safety
+    /// `i < capacity`, the slot is empty, `handle != 0`
+    pub unsafe fn verif_set_slot(&mut self, i: usize, handle: Handle, value: T) {
+        std::ptr::write(self.handles.as_ptr().add(i), handle);
+        std::ptr::write(self.values.as_ptr().add(i), value);
+        self.count += 1;
+    }
+
+    /// Raw view of slot `i`: `None` if empty
+    pub fn verif_slot(&self, i: usize) -> Option<(Handle, &T)> {
+        unsafe {
+            let k = *self.handles.as_ptr().add(i);
+            if k.0 == 0 {
+                None
+            } else {
+                Some((k, &*self.values.as_ptr().add(i)))
+            }
+        }
+    }
+
+    /// The slot the table's own probe sequence ends at for `handle`
+    pub fn verif_find_ind(&self, handle: Handle) -> usize {
+        self.find_ind(handle)
+    }
+}
